@@ -68,7 +68,7 @@ CHECKS = {
         'one hand-written matcher per regex with the typos and flags of the source) as the same kind with the same content - for ANY string/URI/Bin/display-name/XStr/unit payload, '
         'for every valid date and time, for every date-time text isoformat() can produce with a whole-minute offset, and for numbers as the exact %f token; Remove is spelled x: under pre-3.0 and -: otherwise and both read back. '
         'Tied by tree-equality of the writer model with json.loads(hszinc.dump()) and value-equality of the reader model with hszinc.parse on the same documents.',
-   note='PARTIAL: the induction through lists/dicts/grids is not proved (correspondence + search cover it). Numbers never enter Coq as floats: %f formatting and float() are CPython oracles '
+   note='Nesting is proved for lists and dicts to any depth over leaves that round-trip (C02_nested; dicts with distinct keys that are not grid-like). PARTIAL: nested GRIDS and whole-grid induction are not proved (correspondence + search cover them). Numbers never enter Coq as floats: %f formatting and float() are CPython oracles '
         '(hypothesis f6_shape on the token, sampled on every run). json.dumps/json.loads, iso8601, pytz, XStr decoding are outside the model. A dict with keys meta, cols and rows is read as a grid (format ambiguity, excluded from the domain). '
         'Print Assumptions: closed under the global context.',
    technique='Coq proofs about regex-matcher models + extracted-model correspondence (writer trees, reader values) + round-trip search',
